@@ -327,7 +327,19 @@ def r6_every_import_resolved(ctx):
     ctx.floor('C04.R6', 'ResolvedImport values built', n_agg, 1)
 
 
+def r7_generic_matching_is_faithful(ctx):
+    ctx.rule('C04.R7', 'shared with C17.R13: whether the NEAREST generic constructor is the one that is bound for an injected type is decided by `Type::is_a_template_for`: a matcher that wrongly says "no match" sends the scope walk on to the parent blueprint, silently. The recursive calls of the template matcher keep the roles of template and concrete operand, and parts of the two '
+             'operands are not compared by derived equality outside the reviewed sites.')
+    from .c17 import r13_template_roles_and_relation
+    from ..engine import Ctx
+    side = Ctx(ctx.prop, ctx.fb, ctx.tier)
+    r13_template_roles_and_relation(side)
+    for ob in side.obs:
+        ctx.ob('C04.R7', ob.key, ob.ok, ob.loc, ob.detail, ob.nontrivial)
+
+
 def check(ctx):
+    r7_generic_matching_is_faithful(ctx)
     r1_lookup_direction(ctx)
     r2_scopes_and_overrides(ctx)
     r3_clone_guard(ctx)
